@@ -292,6 +292,8 @@ def execute(case: dict) -> RunResult:
     def violate(kind, msg):
         sig = {"component": C.DECODER_CLASS[dk], "encoder": C.ENCODER_CLASS[spec["family"]], "modulation": case["mod"]["scheme"], "soft": case["soft"],
                "plan": plan["kind"], "kind": kind, "layout": "multi_block_rows" if multi else "one_block_per_row"}
+        if case.get("one_d"):
+            sig["layout"] = "unbatched_word_of_at_most_4_bits" if C.build_encoder(spec).code_length * case["b"] <= 4 else "unbatched_word"
         if spec.get("information_set") is not None:
             sig["information_set"] = spec["information_set"] if isinstance(spec["information_set"], str) else "custom"
         res.violations.append(Violation(sig, f"C09: code {code_name(spec)} (advertised d={case.get('advertised_d')}) + {C.DECODER_CLASS[dk]}{case.get('dec_opts') or ''} over {C.mod_name(case['mod'])}, "
